@@ -397,6 +397,7 @@ struct VbSim {
     std::unique_ptr<SimNode> node;
     std::unique_ptr<RefChain> ref;
     std::set<int> manual_invalid;
+    std::vector<std::pair<int, int>> stale_failed; //!< (formerly invalidated ancestor, block whose reconsideration rehabilitated it)
     std::unique_ptr<VersionBitsCache> alt;
     ThresholdConditionCache raw;
     Dep cdep;                         //!< the custom deployment, as the model sees it
@@ -498,6 +499,10 @@ struct VbSim {
     {
         for (int m : manual_invalid)
             if (ref->IsAncestor(m, idx)) return true;
+        // reconsidering a block clears the flags of its ancestors and descendants only: side branches of a formerly invalidated
+        // ancestor keep their BLOCK_FAILED_CHILD flag, and whatever is built on them is refused with bad-prevblk
+        for (auto& [m, via] : stale_failed)
+            if (ref->IsAncestor(m, idx) && !ref->IsAncestor(idx, via) && !ref->IsAncestor(via, idx)) return true;
         return false;
     }
     const CBlockIndex* Pi(int idx)
@@ -1097,8 +1102,10 @@ struct VbSim {
         node->cs().ActivateBestChain(st);
         node->DrainSignals();
         // ResetBlockFailureFlags clears the flags of the block's ancestors and descendants as well
-        for (auto j = manual_invalid.begin(); j != manual_invalid.end();)
+        for (auto j = manual_invalid.begin(); j != manual_invalid.end();) {
+            if (*j != idx && ref->IsAncestor(*j, idx)) stale_failed.emplace_back(*j, idx);
             j = (ref->IsAncestor(*j, idx) || ref->IsAncestor(idx, *j)) ? manual_invalid.erase(j) : std::next(j);
+        }
         CheckFatal();
         ctx.probe("reconsiderblock");
         ctx.evf("reconsider #%d -> tip=%d", idx, TipIdx());
